@@ -201,7 +201,7 @@ func lifecycleOracle(prop string, c *Case, conn int, cs *connState, t *Transcrip
 				if f.live != "true" {
 					add("context-cancelled-early", f.where+" callback context is already cancelled while the command runs")
 				}
-				if f.where == "parse" && f.prevdone == "false" {
+				if f.prevdone == "false" {
 					add("context-not-cancelled", "the context of the previous command is still live when the next command starts")
 				}
 			}
@@ -301,6 +301,13 @@ func genStartupKV(r *Rand, user, db string) [][2]string {
 			kv = append(kv, [2]string{r.Ident(3), r.Str(r.Range(1, 40))})
 		case 4:
 			kv = append(kv, [2]string{"client_encoding", "UTF8"})
+		}
+		if r.Chance(1, 6) {
+			// names are case-sensitive strings: they must come back exactly as sent
+			kv = append(kv, [2]string{r.Pick("DateStyle", "TimeZone", "IntervalStyle", "X-"+r.Ident(3)), r.Str(r.Range(1, 6))})
+			if r.Bool() {
+				kv = append(kv, [2]string{r.Pick("datestyle", "timezone"), r.Ident(3)})
+			}
 		}
 	}
 	// shuffle
